@@ -5,7 +5,8 @@
    [sorted es] = parsable creation times never decrease along the file; [names_unique es] = no two parsable
    entries are equal; [find] models cmsys.FindRecordStartIdx; [find_spec] is the linear scan: the entry equal
    to the cursor if there is one, else the last entry not newer (descending) / the first entry not older
-   (ascending) than the cursor, positions counted from 1. *)
+   (ascending) than the cursor, positions counted from 1; [page_walk] models bbs.LoadGeneralArticles iterated on
+   its own next-cursor; [FHang] = a call that does not return within the fuel of its loops. *)
 From Verif Require Import Base.Common Model.C06 Proofs.C06.
 
 (* From ANY starting index between the first and the last parsable entry, the directional post-search returns
